@@ -84,6 +84,19 @@ def main():
                               key='C14:' + ('listener-bound-after-await' if scen == 'rebind' else 'inflight'))
             else:
                 run.inconclusive.append('"%s": schedule exists in the model (k=%d) but the native %s scenario did not reproduce it in its time budget' % (name, k, scen))
+        # conformance of the model with the real build when no counterexample exists: the native scenarios must pass
+        if not cex:
+            for scen in (['rebind'] if not run.thorough else ['rebind', 'inflight']):
+                try:
+                    failed, panicked, out = driver.replay_native('server', 'server', ['c14_native.go'], 'VerifHarness_C14_Native', {'str:scenario': scen}, timeout=900)
+                except Exception as x:  # noqa
+                    run.inconclusive.append('native conformance run failed to start: %r' % (x,))
+                    continue
+                seen.add(scen)
+                run.obligation('conformance: native scenario "%s" on the real build (real sockets) agrees with the model\'s verdict (not a solver obligation)' % scen, 'unsat' if not (failed or panicked) else 'sat', 'unsat', 0.0)
+                if failed or panicked:
+                    run.violation('the model proves the shutdown properties but the real build fails scenario %s: %s' % (scen, (sorted(set(failed)) or ['panic'])[:2]),
+                                  {'native_scenario': scen, 'native_failed': sorted(set(failed)), 'native_output_tail': out[-1500:]}, key='C14:native-' + scen)
         run.assumptions += sorted(stubs.USED) + ['net/http contract automaton (ListenAndServe: check flag / bind / track / serve; Shutdown: flag+close tracked listeners, wait for in-flight; Close: immediate)',
                                                   'requests always finish; OS signal delivery and the kernel releasing a closed socket are outside the model',
                                                   'goroutines are straight-line and do not branch on received data (checked during extraction)']
